@@ -80,7 +80,7 @@ class Body:
         self.blocks = {}
         self.file = None
         self.line = None
-        self.promoted = False
+        self.promoted = None
 
     def normal_blocks(self):
         return [b for b in self.blocks.values() if not b.cleanup]
@@ -315,7 +315,27 @@ def parse_file(path):
                         cur.params.append((int(pm.group(1)), pm.group(2)))
                         cur.locals[int(pm.group(1))] = pm.group(2)
                 skipping = False
-            elif line.startswith('promoted[') or line.startswith('const ') or line.startswith('static '):
+            elif line.startswith('promoted['):
+                pm = re.match(r'^promoted\[(\d+)\] in (.*) = \{$', line)
+                if not pm:
+                    raise ParseError('bad promoted header: %r' % line[:200])
+                rest = pm.group(2)
+                d = 0
+                cut = None
+                for k, ch in enumerate(rest):
+                    if ch in '<[({':
+                        d += 1
+                    elif ch in ')]}' or (ch == '>' and rest[k - 1] not in '-='):
+                        d -= 1
+                    elif d == 0 and rest.startswith(': ', k):
+                        cut = k
+                        break
+                if cut is None:
+                    raise ParseError('bad promoted header: %r' % line[:200])
+                cur = Body(rest[:cut], '', rest[cut + 2:])
+                cur.promoted = int(pm.group(1))
+                skipping = False
+            elif line.startswith('const ') or line.startswith('static '):
                 # promoted constants / consts / statics: skip until closing brace at col 0
                 skipping = True
             elif skipping and line == '}':
@@ -507,6 +527,13 @@ def canonicalise(bodies, repo):
     'free_fn', each followed by '::{closure#N}' suffixes.  Derive macros (impl header is an
     attribute such as #[derive(Clone)]) get '<derive Clone at file:line>::method'."""
     for b in bodies:
+        _canon_one(b, repo)
+        if b.promoted is not None:
+            b.name += '::promoted[%d]' % b.promoted
+
+
+def _canon_one(b, repo):
+    if True:
         raw = b.raw_name
         m = IMPL_AT_RE.search(raw)
         if not m:
@@ -519,7 +546,7 @@ def canonicalise(bodies, repo):
                 k -= 1
             b.name = '::'.join(segs[k:])
             b.module = '::'.join(segs[:k])
-            continue
+            return
         # there can be several <impl at> (nested items); use the LAST for naming
         ms = list(IMPL_AT_RE.finditer(raw))
         m = ms[-1]
